@@ -214,6 +214,20 @@ CHECKS: Dict[str, Dict[str, str]] = {
         "depend on set order (documented exemption: the rejection itself does not).",
         design="3/C10",
     ),
+    "C15": dict(
+        technique="static analysis: path-condition extraction of the file-name decision folded over component counts, taint rule "
+        "(file-name part -> number) with sanitiser recognition, provenance comparison of the identity arguments through "
+        "finalize / _make_composite / constructors / accessors, loop-shape rule for the bare-name root inference",
+        text="Decides: 3 / 4 dot-separated components map to (name, major, minor) / (port, name, major, minor) and every other count "
+        "is a FileNameFormatError; the namespace is the directory chain below and including the root; every numeric component "
+        "is converted only behind an ASCII-digits guard inside a translating handler (the lax int() found here was repaired); "
+        "name(+.Request/.Response), version, path and port-ID (None for the halves) flow unchanged from the definition into the "
+        "composites, the delimited wrapper and the service object, and back out of the accessors; the root path is found by "
+        "walking one directory per namespace component with a name check; the bare-name inference is independent of the "
+        "order of the listed names. Equivalence of the four root-inference strategies over all spellings is not decided.",
+        note="Trusted: pathlib semantics (resolve, relative_to, parts).",
+        design="3/C15",
+    ),
 }
 
 NOT_APPLICABLE: Dict[str, str] = {}
